@@ -23,6 +23,12 @@ type Cfg struct {
 	Fhi   int
 	H     int // history
 	Batch bool
+	// RK[l] > 0: the reset condition of level l is the STATEFUL lambda
+	// "count() >= RK[l]" instead of the boolean field (AlertNode.tla: rk).
+	RK [3]int
+	// Inline: the node also has an inline handler (.talk(): anonymous topic)
+	// besides its named topic.
+	Inline bool
 	// Numeric: the lambdas are the documented numeric thresholds on field "value"
 	// (info >60 reset <50, warn >70 reset <60, crit >80 reset <70) instead of the
 	// boolean fields; not part of the model configuration.
@@ -43,7 +49,9 @@ func (c Cfg) String() string {
 	for l := 0; l < 3; l++ {
 		if c.Has[l] {
 			b.WriteString(lvlField[l])
-			if c.Rst[l] {
+			if c.Rst[l] && c.RK[l] > 0 {
+				fmt.Fprintf(&b, "+count>=%d", c.RK[l])
+			} else if c.Rst[l] {
 				b.WriteString("+r")
 			}
 			b.WriteByte(' ')
@@ -61,6 +69,9 @@ func (c Cfg) String() string {
 	if c.Flap {
 		fmt.Fprintf(&b, "flap(%d,%d) ", c.Flo, c.Fhi)
 	}
+	if c.Inline {
+		b.WriteString("inline ")
+	}
 	fmt.Fprintf(&b, "H%d", c.H)
 	return b.String()
 }
@@ -70,7 +81,8 @@ func bools(a [3]bool) []any { return []any{a[0], a[1], a[2]} }
 // JSON is the cfg record of the Reset line.
 func (c Cfg) JSON() rt.M {
 	return rt.M{"has": bools(c.Has), "rst": bools(c.Rst), "sco": c.Sco, "scod": c.Scod, "norec": c.NoRec,
-		"all": c.All, "flap": c.Flap, "flo": c.Flo, "fhi": c.Fhi, "H": c.H, "batch": c.Batch}
+		"all": c.All, "flap": c.Flap, "flo": c.Flo, "fhi": c.Fhi, "H": c.H, "batch": c.Batch,
+		"rk": []any{c.RK[0], c.RK[1], c.RK[2]}, "inline": c.Inline}
 }
 
 // Valid: resets only for present levels, all() only for batch, at least one level.
@@ -79,6 +91,13 @@ func (c Cfg) Valid() bool {
 	for l := 0; l < 3; l++ {
 		any = any || c.Has[l]
 		if c.Rst[l] && !c.Has[l] {
+			return false
+		}
+		if c.RK[l] > 0 && !c.Rst[l] {
+			return false
+		}
+		// stateful resets: stream, no filters (AlertNode.tla: ConfigOK)
+		if c.RK[l] > 0 && (c.Batch || c.Sco || c.NoRec || c.Flap) {
 			return false
 		}
 	}
@@ -112,6 +131,8 @@ func (c Cfg) Script(topic string) string {
 			}
 			if c.Rst[l] && c.Numeric {
 				fmt.Fprintf(&b, "        .%sReset(lambda: \"value\" < %d)\n", lvlName[l], 50+10*l)
+			} else if c.Rst[l] && c.RK[l] > 0 {
+				fmt.Fprintf(&b, "        .%sReset(lambda: count() >= %d)\n", lvlName[l], c.RK[l])
 			} else if c.Rst[l] {
 				fmt.Fprintf(&b, "        .%sReset(lambda: \"%s\")\n", lvlName[l], rstField[l])
 			}
@@ -132,6 +153,9 @@ func (c Cfg) Script(topic string) string {
 	}
 	if c.Flap {
 		fmt.Fprintf(&b, "        .flapping(%s, %s)\n", pct(c.Flo), pct(c.Fhi))
+	}
+	if c.Inline {
+		b.WriteString("        .talk()\n")
 	}
 	fmt.Fprintf(&b, "        .history(%d)\n", c.H)
 	fmt.Fprintf(&b, "        .topic('%s')\n        .levelField('l')\n        .idField('id')\n        .durationField('d')\n        .levelTag('lt')\n        .idTag('it')\n", topic)
@@ -170,7 +194,7 @@ func classes(c Cfg) []Pt {
 		}
 	}
 	for l := 0; l < 3; l++ {
-		if c.Has[l] && c.Rst[l] {
+		if c.Has[l] && c.Rst[l] && c.RK[l] == 0 {
 			vars = append(vars, &p.R[l])
 		}
 	}
